@@ -387,6 +387,285 @@ def compare_representations(chk, cases):
     return bad
 
 
+# ---- points exactly ON the boundary of the closed domain, for many sizes (added after seeded change C18f)
+# The kernel cases above put ONE point per axis pair on a cell face (k == 1) at a random cell size 10^U(-3,6); the pathlines
+# use the cell sizes 2, 1, 10, 1e5 and the unit boxes.  A domain test that goes through a ROUNDED intermediate quantity
+# (a phase pi/d * x compared with pi/2, x * (1/d) compared with 1/2, ...) is identical to the documented test |x_i| <= d/2
+# over the reals and at every interior point, and in binary64 at every boundary point for MOST sizes d -- for the others
+# the points of the faces / edges / corners of the closed domain (the doctests of cell_2d evaluate there) are misplaced.
+# So: the boundary points of every flow's domain, and pathlines ending on the faces of the box that IS the flow's cell,
+# for MANY sizes: every integer 1..128, powers of ten and of two, decimals as a user types them, random floats.
+SIZE_CLASSES = ("integer 1..128", "power of ten", "power of two", "decimal k/10^m", "random 10^U(-3,6)", "random U(1,128)")
+
+
+def boundary_sizes(rng, tier):
+    """[(size class, d)]: the cell sizes / box sizes of the domain-boundary family"""
+    quick = tier == "quick"
+    out = [(SIZE_CLASSES[0], float(k)) for k in range(1, 129)]
+    out += [(SIZE_CLASSES[1], float(10.0 ** k)) for k in range(-3, 7)]
+    out += [(SIZE_CLASSES[2], float(2.0 ** k)) for k in (-10, -3, -1, 8, 10, 20)]
+    n = 40 if quick else 400
+    out += [(SIZE_CLASSES[3], float(round(float(rng.uniform(0.1, 1000.0)), int(rng.integers(1, 3))))) for _ in range(n // 2)]
+    out += [(SIZE_CLASSES[4], float(10.0 ** rng.uniform(-3, 6))) for _ in range(n)]
+    out += [(SIZE_CLASSES[5], float(rng.uniform(1, 128))) for _ in range(n)]
+    if not quick:
+        out += [("integer 129..1024", float(k)) for k in range(129, 1025)]
+    return out
+
+
+def rounding_sensitive(d):
+    """True iff some algebraically equivalent way of writing the test `x <= d/2` AT x = d/2 evaluates differently in binary64
+    (phase against pi/2 in three association orders, reciprocal of d, distance to the face relative to d).  No statement about
+    the implementation: used to spend half of the (few) boundary PATHLINES on sizes where a rewritten test would show."""
+    x = d / 2
+    return bool((math.pi / d) * x > math.pi / 2 or math.pi * x / d > math.pi / 2 or math.pi * (x / d) > math.pi / 2
+                or x * (1.0 / d) > 0.5 or (1.0 / d) * x * 2 > 1.0 or x / d > 0.5 or 2 * x > d
+                or (x * math.pi) * (1.0 / d) > math.pi / 2 or (2 * math.pi / d) * x > math.pi)
+
+
+def in_closed_domain(flow, h, v, ps, y):
+    """Is y a point of the (closed) domain of the flow?  Exact rational arithmetic on the binary64 values -- the documented
+    domain, not a floating-point test: simple shear: everywhere; Stokes cell: |y_h| <= d/2 and |y_v| <= d/2 (`x_i in [-d/2, d/2]`);
+    corner flow: the half space y_v <= 0 without the open box |y_h|, |y_v| < 1e-15 around the singular corner."""
+    from fractions import Fraction as Fr
+    if not all(math.isfinite(a) for a in y):
+        return False
+    if flow == 0:
+        return True
+    if flow == 1:
+        d = Fr(ps[1] if len(ps) > 1 else 2.0)
+        return d > 0 and 2 * abs(Fr(float(y[h]))) <= d and 2 * abs(Fr(float(y[v]))) <= d
+    return float(y[v]) <= 0 and not (abs(Fr(float(y[h]))) < Fr(1e-15) and abs(Fr(float(y[v]))) < Fr(1e-15))
+
+
+def cell_boundary_points(h, v, d, rng):
+    """[(class, x, in the closed domain?)] for the cell of edge length d: the four faces, a face midpoint (the doctest
+    points), a corner, the binary64 neighbours of a face on both sides"""
+    o = 3 - h - v
+    lim = d / 2
+    pts = []
+
+    def base():
+        x = np.zeros(3)
+        x[h], x[v], x[o] = rng.uniform(-0.45, 0.45) * d, rng.uniform(-0.45, 0.45) * d, rng.uniform(-1.0, 1.0) * d
+        return x
+    for name, ax, s in (("face h+", h, 1), ("face h-", h, -1), ("face v+", v, 1), ("face v-", v, -1)):
+        x = base(); x[ax] = s * lim
+        pts.append((name, x, True))
+    ax, other = (h, v) if rng.random() < 0.5 else (v, h)
+    x = np.zeros(3); x[ax] = lim if rng.random() < 0.5 else -lim
+    pts.append(("face midpoint", x, True))
+    x = base(); x[h] = lim if rng.random() < 0.5 else -lim; x[v] = lim if rng.random() < 0.5 else -lim
+    pts.append(("corner", x, True))
+    s = 1 if rng.random() < 0.5 else -1
+    x = base(); x[ax] = s * float(np.nextafter(lim, 0.0))
+    pts.append(("just inside a face", x, True))
+    x = base(); x[other] = s * float(np.nextafter(lim, np.inf))
+    pts.append(("just outside a face", x, False))
+    return pts
+
+
+def corner_boundary_points(h, v, s, rng):
+    """boundary of the corner flow's domain at length scale s: the surface y_v = 0 (both zeros), the ridge axis, the far
+    edge of the surface / depth s, the rim of the 1e-15 box around the singular corner (the test there is strict)"""
+    o = 3 - h - v
+    pts = []
+
+    def mk(a, b):
+        x = np.zeros(3); x[h], x[v], x[o] = a, b, rng.uniform(-1.0, 1.0) * s
+        return x
+    sg = 1 if rng.random() < 0.5 else -1
+    pts.append(("surface", mk(sg * s * rng.uniform(0.05, 1.0), 0.0), True))
+    pts.append(("surface (negative zero)", mk(-sg * s, -0.0), True))
+    pts.append(("ridge axis", mk(0.0, -s * rng.uniform(0.05, 1.0)), True))
+    pts.append(("rim of the hole", mk(sg * 1e-15, -1e-15 * rng.uniform(0.0, 1.0)) if rng.random() < 0.5 else mk(sg * 1e-15 * rng.uniform(0.0, 1.0), -1e-15), True))
+    return pts
+
+
+def gen_domain_boundary_points(rng, tier):
+    """[{flow, hl, vl, ps, x, cls, size_cls, inside}]"""
+    pts = []
+    sizes = boundary_sizes(rng, tier)
+    for k, (scls, d) in enumerate(sizes):
+        h, v = PAIRS[k % 6]
+        amp = float(10.0 ** rng.uniform(-3, 3)) * (1 if k % 5 else -1)
+        for cls, x, inside in cell_boundary_points(h, v, d, rng):
+            pts.append({"flow": 1, "hl": LETTERS[h], "vl": LETTERS[v], "ps": [amp, d], "x": x, "cls": cls, "size_cls": scls, "inside": inside, "size": d})
+        if k % 4 == 0:
+            for cls, x, inside in corner_boundary_points(h, v, d, rng):
+                pts.append({"flow": 2, "hl": LETTERS[h], "vl": LETTERS[v], "ps": [amp], "x": x, "cls": cls, "size_cls": scls, "inside": inside, "size": d})
+    # edge_length left at its default: the faces of the default cell are at +-1 (the points of the doctests)
+    for (h, v) in PAIRS:
+        for cls, x, inside in cell_boundary_points(h, v, 2.0, rng):
+            pts.append({"flow": 1, "hl": LETTERS[h], "vl": LETTERS[v], "ps": [float(rng.uniform(0.1, 3))], "x": x, "cls": cls,
+                        "size_cls": "default edge length", "inside": inside, "size": 2.0})
+    return pts
+
+
+def compare_domain_boundary(chk, pts):
+    """correspondence at the boundary points (hand-written wrapper model and the wrapper generated from the source vs the
+    implementation: compare_kernels) + the models are pure functions: neither callable may modify the position it is given"""
+    from argguard import guarded
+    cases = [(kind, p["flow"], p["hl"], p["vl"], p["ps"], float("nan"), [float(a) for a in p["x"]]) for p in pts for kind in ("velocity", "gradient")]
+    bad = compare_kernels(chk, cases, rtol=1e-10)
+    hist = chk.cov.setdefault("histogram", {})
+    outcome = {"returned": 0, "raised": 0}
+    sizes = set()
+    for p in pts:
+        for key in (f"domain boundary:{FLOWS[p['flow']]}:{p['cls']}", f"domain boundary size:{p['size_cls']}"):
+            hist[key] = hist.get(key, 0) + 1
+        sizes.add((p["flow"], p["size"]))
+        u, L = make_flow(p["flow"], p["hl"], p["vl"], p["ps"])
+        for kind, f in (("velocity", u), ("gradient", L)):
+            x = np.array(p["x"], dtype=float)
+            try:
+                _, faults = guarded(f, (np.nan, x))
+                outcome["returned"] += 1
+            except Exception as e:  # noqa: BLE001
+                faults = getattr(e, "argguard_faults", [])
+                outcome["raised"] += 1
+                if p["inside"] and kind == "velocity":
+                    hist["domain boundary:raised at a point of the closed domain"] = hist.get("domain boundary:raised at a point of the closed domain", 0) + 1
+            for ft_ in faults:
+                bad.append(((kind, p["flow"], p["hl"], p["vl"], p["ps"], float("nan"), [float(a) for a in p["x"]]),
+                            f"{FLOWS[p['flow']]} {kind} callable at {list(p['x'])} ({p['cls']}): {ft_}"))
+    chk.cov["domain_boundary"] = {"points": len(pts), "callable_cases": len(cases), "cell_sizes": sum(1 for (fl, d) in sizes if fl == 1),
+                                  "corner_flow_length_scales": sum(1 for (fl, d) in sizes if fl == 2), "size_classes": list(SIZE_CLASSES),
+                                  "rounding_sensitive_sizes": sum(1 for (fl, d) in sizes if fl == 1 and rounding_sensitive(d)),
+                                  "calls_returned": outcome["returned"], "calls_raised (the just-outside points)": outcome["raised"],
+                                  "points_outside (binary64 neighbour beyond a face, must be rejected)": sum(1 for p in pts if not p["inside"])}
+    return bad
+
+
+def oracle_domain_point(flow, hl, vl, ps, x, where=""):
+    """The property at ONE point of the closed domain of a flow (interior or boundary): both callables are defined there
+    (return finite arrays of shape (3,) / (3, 3) and leave the position alone), the gradient callable is the Jacobian of the
+    velocity callable -- difference quotients taken INTO the domain where a neighbour would lie outside -- and trace-free.
+    Returns failure strings (the documented shear / cell findings filtered by their exact signature); [] for points that
+    are not in the domain (the property says nothing there)."""
+    from argguard import guarded
+    h, v = ordl(hl), ordl(vl)
+    if h > 2 or v > 2 or h == v:
+        return []
+    x = np.array([float(a) for a in x])
+    if not in_closed_domain(flow, h, v, ps, x):
+        return []
+    xs = [float(a) for a in x]
+    name = f"{FLOWS[flow]}({hl!r}, {vl!r}, *{[float(a) for a in ps]})"
+    dom = {0: "all of space", 1: f"the closed cell |x_{hl}|, |x_{vl}| <= {(ps[1] if len(ps) > 1 else 2.0) / 2!r}",
+           2: f"the half space x_{vl} <= 0 outside the 1e-15 box around the corner"}[flow]
+    u, L = make_flow(flow, hl, vl, ps)
+    fails, vals = [], {}
+    for kind, f, shape in (("velocity", u, (3,)), ("gradient", L, (3, 3))):
+        try:
+            out, faults = guarded(f, (np.nan, x.copy()))
+            out = np.asarray(out, dtype=float)
+            if out.shape != shape or not np.all(np.isfinite(out)):
+                fails.append(f"{name}: x = {xs}{where} is a point of the domain ({dom}) but the {kind} callable returns {out.reshape(-1).tolist()[:9]}")
+            else:
+                vals[kind] = out
+            fails += [f"{name}: the {kind} callable at x = {xs}: {ft_}" for ft_ in faults]
+        except Exception as e:  # noqa: BLE001
+            fails.append(f"{name}: x = {xs}{where} is a point of the domain ({dom}) but the {kind} callable raises "
+                         f"{type(e).__name__}: {str(e)[:120]}")
+    if fails or len(vals) < 2:
+        return fails
+    G = vals["gradient"]
+    # the length over which the field varies: the cell size / the distance to the singular corner / (linear field) the position
+    if flow == 1:
+        s = abs(ps[1]) if len(ps) > 1 else 2.0
+    elif flow == 2:
+        s = math.hypot(x[h], x[v])
+    else:
+        s = max(float(np.abs(x).max()), 1e-300)
+    hs = 1e-6 * s
+    J = np.full((3, 3), np.nan)
+    for k in range(3):
+        e = np.zeros(3); e[k] = hs
+        inside = {m: in_closed_domain(flow, h, v, ps, x + m * e) for m in (-2, -1, 1, 2)}
+        try:
+            if inside[1] and inside[-1]:
+                J[:, k] = (np.asarray(u(np.nan, x + e)) - np.asarray(u(np.nan, x - e))) / (2 * hs)
+            elif inside[-1] and inside[-2]:       # on an upper face: second-order backward quotient
+                J[:, k] = (3 * vals["velocity"] - 4 * np.asarray(u(np.nan, x - e)) + np.asarray(u(np.nan, x - 2 * e))) / (2 * hs)
+            elif inside[1] and inside[2]:         # on a lower face: second-order forward quotient
+                J[:, k] = -(3 * vals["velocity"] - 4 * np.asarray(u(np.nan, x + e)) + np.asarray(u(np.nan, x + 2 * e))) / (2 * hs)
+        except Exception as e2:  # noqa: BLE001
+            fails.append(f"{name}: the velocity callable raises {type(e2).__name__}: {str(e2)[:100]} at a point of the domain next to x = {xs}{where} "
+                         f"(offset {hs!r} along axis {k})")
+            return fails
+    known = np.isfinite(J)
+    # measured against the natural size of the gradient at the point (U / r, U pi / d, rate): on the ridge axis of the corner
+    # flow every entry of L is exactly 0 and the difference quotient is its own truncation error
+    sc = max(float(np.abs(J[known]).max()) if known.any() else 0.0, float(np.abs(G).max()),
+             scale_of(("gradient", flow, hl, vl, ps, 0.0, [float(a) for a in x])), 1e-300)
+    msgs = []
+    D = np.where(known, np.abs(G - np.where(known, J, 0.0)), 0.0)
+    if D.max() > 1e-5 * sc:
+        k, m = np.unravel_index(D.argmax(), (3, 3))
+        msgs.append(f"{name}: gradient[{k},{m}] = {G[k, m]!r} but d u_{k} / d x_{m} = {J[k, m]!r} at x = {xs}{where}")
+    if abs(np.trace(G)) > 1e-9 * sc:
+        msgs.append(f"{name}: trace of the gradient = {np.trace(G)!r} at x = {xs}{where}")
+    ps_full = list(ps) + [2.0] if flow == 1 and len(ps) == 1 else list(ps)        # cell_2d's documented default edge length
+    return fails + [m_ for m_ in msgs if not explained_by_finding(flow, hl, vl, ps_full, x, m_)]
+
+
+def domain_boundary_specs(rng, tier):
+    """Pathlines whose final location lies ON a face / an edge / a corner of the domain box, the box being the flow's own
+    cell (Stokes cell: [-d/2, d/2]^3; corner flow: [0, d] x [-d, 0]; simple shear: [-d/2, d/2]^3), for many sizes d: a third
+    rounding-sensitive sizes, a third integers / decimals, a third random floats.  [(name, histogram key, spec)]"""
+    sizes = boundary_sizes(rng, "quick")
+    n = 12 if tier == "quick" else 120
+    sens = [sd for sd in sizes if rounding_sensitive(sd[1])]
+    plain = [sd for sd in sizes if sd[0] in SIZE_CLASSES[:4]]
+    rand = [sd for sd in sizes if sd[0] in SIZE_CLASSES[4:]]
+    picks = []
+    for pool in (sens, plain, rand):
+        if pool:
+            picks += [pool[int(i)] for i in rng.choice(len(pool), size=min(n, len(pool)), replace=False)]
+    out = []
+    for k, (scls, d) in enumerate(picks):
+        h, v = PAIRS[k % 6]
+        o = 3 - h - v
+        hl, vl = LETTERS[h], LETTERS[v]
+        ms = float(rng.choice([0.25, 0.5, 1.0, 2.0]))
+        steps = None if k % 4 else int(rng.choice([1, 5, 20]))
+        # (a) the Stokes cell, final location on one face of the flow plane; (b) on the dummy-axis face / an edge / a corner
+        for variant in ("flow-plane face", ("dummy-axis face", "edge", "edge", "corner")[k % 4]):
+            mn, mx = -np.ones(3) * d / 2, np.ones(3) * d / 2
+            p = rng.uniform(-0.45, 0.45, 3) * d
+            axes = {"flow-plane face": [(h, v)[k % 2]], "dummy-axis face": [o], "edge": [(h, v)[k % 2], o], "corner": [h, v]}[variant]
+            for ax in axes:
+                p[ax] = mn[ax] if rng.random() < 0.5 else mx[ax]
+            ps = [float(10.0 ** rng.uniform(-1, 0.5)) * d / 2, d]
+            out.append((f"cell_2d, d = {d!r} ({scls}): final location on {'an' if variant == 'edge' else 'a'} {variant} of the cell", f"cell_2d:{variant}",
+                        (1, hl, vl, ps, mn, mx, p, ms, steps if variant != "corner" else None)))
+        # (c) one of the other two flows in a box of the same size
+        mn, mx, p = np.zeros(3), np.zeros(3), np.zeros(3)
+        if k % 2:
+            mn[:], mx[:] = -d / 2, d / 2
+            p[:] = rng.uniform(-0.45, 0.45, 3) * d
+            ax = (h, v, o)[(k // 2) % 3]
+            p[ax] = mn[ax] if rng.random() < 0.5 else mx[ax]
+            out.append((f"simple_shear_2d, box size {d!r} ({scls}): final location on a face", "simple_shear_2d:face",
+                        (0, hl, vl, [float(10.0 ** rng.uniform(-2, 1))], mn, mx, p, ms, steps)))
+        else:
+            mn[h], mx[h], mn[v], mx[v], mn[o], mx[o] = 0.0, d, -d, 0.0, -d / 2, d / 2
+            p[h], p[v], p[o] = rng.uniform(0.05, 0.95) * d, -rng.uniform(0.05, 0.95) * d, rng.uniform(-0.45, 0.45) * d
+            which = ("surface", "bottom", "far face", "ridge axis")[(k // 2) % 4]
+            if which == "surface":
+                p[v] = 0.0
+            elif which == "bottom":
+                p[v] = -d
+            elif which == "far face":
+                p[h] = d
+            else:
+                p[h] = 0.0
+            out.append((f"corner_2d, box size {d!r} ({scls}): final location on the {which}", f"corner_2d:{which}",
+                        (2, hl, vl, [float(10.0 ** rng.uniform(-1, 0.5)) * d], mn, mx, p, ms, steps)))
+    return out
+
+
 # ---- strain increment over the eigenvalue oracle
 def compare_strain_increment(chk, rng, tier):
     import pydrex.utils as utils
@@ -648,7 +927,14 @@ def check_pathline(chk, spec, rec, stats, solver_kwargs=None):
         m, g = common.run_model([common.model_line(e, [flow, ordl(hl), ordl(vl), len(ps), len(calls)], xs) for e in ("event", "gen_event")],
                                 group=GROUP)
         stats["event_calls"] += len(calls)
-        if m[0] != "OK":
+        if m[0] != "OK" and os.environ.get("C18_REPLAY_MODE"):
+            # `--replay` does not rebuild, and the hand-written state machine reaches the gradient through the kernel GENERATED
+            # from whichever tree was checked last: when that tree rejects a point that this tree accepts (a changed domain test,
+            # seeded change C18f) the stale driver raises here although implementation and property are fine.  The event VALUES
+            # do not depend on the generated kernel (the strain rate is passed in), only this error path does: a replay judges
+            # the remaining clauses.
+            print(f"(replay: the extracted event model raises {m[1]} on the recorded call history -- driver built from another tree? not judged)")
+        elif m[0] != "OK":
             fails.append(f"terminal event: model raises {m[1]} on the recorded call history")
         else:
             okc, j = common.vec_close([c[2] for c in calls], m[1], rtol=1e-9, atol=1e-12 * ms)
@@ -1461,7 +1747,7 @@ def classify_callable_failure(flow, fails):
     return None
 
 
-def search(chk, rng_seed, extra_specs=(), extra_scenarios=(), extra_rep=()):
+def search(chk, rng_seed, extra_specs=(), extra_scenarios=(), extra_rep=(), extra_points=()):
     """Failing-input search: property oracle on the public API.  Known findings are only
     accepted when the failure has exactly their signature (shear: ratio 2 in the single
     non-zero entry; cell: only the two vertical-row entries / the trace)."""
@@ -1486,6 +1772,30 @@ def search(chk, rng_seed, extra_specs=(), extra_scenarios=(), extra_rep=()):
                     break
             if len(found) >= 3:
                 return found
+    # points of the closed domain incl. its boundary (the disagreeing kernel cases first, then every face / edge / corner class
+    # for every size of the sweep); at most two replays of this kind so that a pathline ending on such a face is reported too
+    seenp, nb = set(), 0
+    sweep = [(p["flow"], p["hl"], p["vl"], p["ps"], p["x"], p["cls"]) for p in gen_domain_boundary_points(np.random.default_rng([rng_seed, 1806]), "quick")]
+    for (flow, hl, vl, ps, x, cls) in [tuple(c) + ("disagreeing correspondence case",) for c in extra_points] + sweep:
+        key = (flow, hl, vl, tuple(ps), tuple(float(a) for a in x))
+        if key in seenp:
+            continue
+        seenp.add(key)
+        try:
+            fails = oracle_domain_point(flow, hl, vl, ps, x, f" ({cls})")
+        except Exception as e:  # noqa: BLE001
+            fails = [f"{FLOWS[flow]}({hl!r}, {vl!r}, *{list(ps)}) at x = {[float(a) for a in x]}: the property oracle could not be evaluated: {type(e).__name__}: {str(e)[:120]}"]
+        if fails:
+            found.append(({"call": f"pydrex.velocity.{FLOWS[flow]}", "horizontal": hl, "vertical": vl, "params": [hx(a) for a in ps],
+                           "params_float": [float(a) for a in ps], "x": [hx(a) for a in x], "x_float": [float(a) for a in x], "domain_point": cls,
+                           "how": "build the flow, apply both returned callables to the float64 position x (a point of the flow's closed domain: "
+                                  "Stokes cell |x_i| <= edge_length/2, corner flow x_vertical <= 0 outside the 1e-15 box around the corner): both must "
+                                  "return finite arrays and the gradient must be the (one-sided, into the domain) Jacobian of the velocity"}, fails[:4]))
+            nb += 1
+            if nb >= 2 or len(found) >= 3:
+                break
+    if len(found) >= 3:
+        return found
     # the same point in other representations (the disagreeing cases first, then the structured sweep)
     seen = set()
     for c in list(extra_rep) + gen_representation_cases(np.random.default_rng([rng_seed, 1804]), "quick"):
@@ -1528,7 +1838,8 @@ def search(chk, rng_seed, extra_specs=(), extra_scenarios=(), extra_rep=()):
     # pathlines
     stats = new_stats()
     timeouts = 0
-    for spec in list(extra_specs) + pathline_specs(rng, "quick")[:24] + [sp for _, sp in boundary_specs()]:
+    for spec in (list(extra_specs) + pathline_specs(rng, "quick")[:24] + [sp for _, sp in boundary_specs()]
+                 + [sp for _, _, sp in domain_boundary_specs(np.random.default_rng([rng_seed, 1807]), "quick")]):
         if timeouts >= 2 and found:
             break
         rec = run_pathline(spec)
@@ -1742,6 +2053,12 @@ def run(chk):
         "one or all axes degenerate, strain limits 0 / 1e-300 / 1e-12 / 1e9 / reached exactly at a face / 20 (several revolutions of the cell), "
         "regular_steps 0 and 1, stagnation points. wrappers: letters that are no axis, mixed case, default edge length. every kernel case also "
         "through the wrapper generated from the source, _is_inside / _ivp_func / _ivp_jac through the generated kernels. "
+        "domain boundaries (coverage.domain_boundary): both callables at points exactly ON the four faces / a face midpoint / a corner of the "
+        "Stokes cell and at the binary64 neighbours of a face on both sides (the outer one must be rejected), for EVERY integer cell size "
+        "1..128, powers of ten 1e-3..1e6, powers of two, decimals k/10^m, random sizes 10^U(-3,6) and U(1,128), the default edge length, all six "
+        "axis pairs; the surface (+0 and -0), the ridge axis and the rim of the 1e-15 hole of the corner flow at the same length scales; the "
+        "position must be left unmodified (argguard); pathlines whose final location lies on a face / an edge / a corner of the box that IS the "
+        "flow's cell (a third of the sizes rounding-sensitive: some equivalent form of `x <= d/2` evaluates differently in binary64 at x = d/2). "
         "distinct = distinct inputs; non-trivial = some output non-zero")
     bad, path_bad, seq_bad = [], [], []
     stats = new_stats()
@@ -1757,9 +2074,16 @@ def run(chk):
         bad += rep_bad
         bad += compare_strain_increment(chk, rng, chk.tier)
         bad += compare_inside(chk, rng, chk.tier)
+        # points ON the boundary of every flow's closed domain, many sizes (own generators: the streams above are unchanged)
+        dom_pts = gen_domain_boundary_points(np.random.default_rng([chk.seed, 1806]), chk.tier)
+        bad += compare_domain_boundary(chk, dom_pts)
         bnd = boundary_specs()
-        specs = [WITNESS_PATH] + [sp for _, sp in bnd] + pathline_specs(rng, chk.tier)
+        dom_specs = domain_boundary_specs(np.random.default_rng([chk.seed, 1807]), chk.tier)
+        specs = [WITNESS_PATH] + [sp for _, sp in bnd] + [sp for _, _, sp in dom_specs] + pathline_specs(rng, chk.tier)
         names = {id(sp): nm for nm, sp in bnd}
+        dom_keys = {id(sp): key for _, key, sp in dom_specs}
+        dom_out = {"pathlines": len(dom_specs), "returned": 0, "raised the brentq ValueError (known finding)": 0, "failed": 0,
+                   "sizes": sorted({float(sp[5][ordl(sp[1])] - sp[4][ordl(sp[1])]) for _, _, sp in dom_specs})}
         chk.cov.setdefault("histogram", {})["pathline:boundary_values"] = len(bnd)
         timeouts = 0
         for spec in specs:
@@ -1782,6 +2106,12 @@ def run(chk):
                     "raised " + rec["exc"][0] if rec["exc"] is not None else
                     (f"{len(rec['ts'])} time stamps from {float(rec['ts'][0]):.6g}" if len(rec["ts"]) else "no time stamps")
                     + (f"; {'; '.join(f_[:80] for f_ in fails)}" if fails else ""))
+            if id(spec) in dom_keys:
+                hk = "pathline:domain_boundary:" + dom_keys[id(spec)]
+                chk.cov["histogram"][hk] = chk.cov["histogram"].get(hk, 0) + 1
+                dom_out["returned" if rec["exc"] is None else "raised the brentq ValueError (known finding)"
+                        if is_known_pathline_failure(spec, rec, fails) else "failed"] += 1
+                dom_out["failed"] += int(rec["exc"] is None and bool(fails))
             if rec["exc"] is None:
                 stats["completed"] += 1
             else:
@@ -1808,7 +2138,9 @@ def run(chk):
             chk.cov["call_sequences"] = {"calls": 0, "error": str(e)[:300]}
         if seq_results is not None:
             seq_bad = compare_sessions(chk, scenarios, seq_results, stats, known_path_points)
-        chk.cov["traces_validated_against_impl"] = len(kc) + len(rep_cases) + stats["pathlines"] + chk.cov["call_sequences"]["calls"]
+        chk.cov.setdefault("domain_boundary", {})["pathlines_ending_on_the_faces_of_the_cell"] = dom_out
+        chk.cov["traces_validated_against_impl"] = (len(kc) + len(rep_cases) + 2 * len(dom_pts) + stats["pathlines"]
+                                                    + chk.cov["call_sequences"]["calls"])
     stats["strain_ratios"] = sorted(stats["strain_ratios"])[-8:]
     sigs = stats.pop("known_signatures", {})
     stats["known_boundary_signatures"] = {k: len(v) for k, v in sigs.items()}
@@ -1873,7 +2205,9 @@ def run(chk):
         return
     found = search(chk, chk.seed + 1, extra_specs=[s for s, _ in path_bad if isinstance(s, tuple)][:6],
                    extra_scenarios=[sc for sc, _ in seq_bad],
-                   extra_rep=[c for c, _ in bad if isinstance(c, tuple) and len(c) == 7 and isinstance(c[0], int)][:40])
+                   extra_rep=[c for c, _ in bad if isinstance(c, tuple) and len(c) == 7 and isinstance(c[0], int)][:40],
+                   extra_points=[(c[1], c[2], c[3], c[4], c[6]) for c, _ in bad
+                                 if isinstance(c, tuple) and len(c) == 7 and c[0] in ("velocity", "gradient")][:60])
     if found:
         for inp, fails in found[:3]:
             chk.replay({"kind": "property-violation", "input": inp, "observed": fails,
@@ -1928,6 +2262,10 @@ def replay(d):
         got = float(utils.strain_increment(dt, Lm))
         if abs(got - want) > 1e-10 * max(1.0, want):
             fails.append(f"strain_increment = {got!r}, expected {want!r}")
+    elif "domain_point" in inp:
+        flow = FLOWS.index(inp["call"].split(".")[-1])
+        fails = oracle_domain_point(flow, inp["horizontal"], inp["vertical"], [unhx(a) for a in inp["params"]],
+                                    np.array([unhx(a) for a in inp["x"]]), f" ({inp['domain_point']})")
     elif "representation" in inp:
         flow = FLOWS.index(inp["call"].split(".")[-1])
         fails = oracle_representation(flow, inp["horizontal"], inp["vertical"], [unhx(a) for a in inp["params"]],
